@@ -184,8 +184,14 @@ deriving Repr, DecidableEq
 
 def iAppend (l : List Item) (x : Item) : Res := ⟨l ++ [x], [.app x], .none⟩
 
-/-- `__del(self, value)` THEN `fn(self, value)`: the event precedes the ValueError -/
+/-- `if value in self: __del(self, value)`; then `fn(self, value)` (ValueError when absent) -/
 def iRemove (l : List Item) (x : Item) : Res :=
+  match pRemove l x with
+  | .ok l' => ⟨l', [.rem x], .none⟩
+  | .error e => ⟨l, [], .err e⟩
+
+/-- the code before the G1 fix: the event was fired before list.remove raised -/
+def iRemoveUnguarded (l : List Item) (x : Item) : Res :=
   match pRemove l x with
   | .ok l' => ⟨l', [.rem x], .none⟩
   | .error e => ⟨l, [.rem x], .err e⟩
